@@ -400,7 +400,11 @@ func runC16(tr *Trace, sc *Script, rec *Recorder, scratch string) *Violation {
 			ms := []int64{cfg["wait_ms"], cfg["retry_ms"], cfg["reorg_ms"], 100, 3000}[r.Intn(5)]
 			return Op{K: "time", A: []int64{ms}}, true
 		case 5:
-			return Op{K: "rel", S: labels[r.Intn(len(labels))], A: []int64{int64(1 + r.Intn(2))}}, true
+			fm := int64(1 + r.Intn(2))
+			if r.Bool(25) {
+				fm = replyDeadline
+			}
+			return Op{K: "rel", S: labels[r.Intn(len(labels))], A: []int64{fm}}, true
 		case 6:
 			return Op{K: "crash"}, true
 		default:
@@ -479,6 +483,9 @@ func runC16(tr *Trace, sc *Script, rec *Recorder, scratch string) *Violation {
 			}
 			m := int(op.Arg(0))
 			if m == replyNotFound && !(p.method == "HeaderByNumber" && p.desc[0] >= '0' && p.desc[0] <= '9') {
+				m = replyTransient
+			}
+			if m == replyDeadline && p.method != "HeaderByNumber" && p.method != "FilterLogs" {
 				m = replyTransient
 			}
 			if m != replyOK {
